@@ -76,8 +76,10 @@ class World:
         for t in terms:
             for d in t.dofs:
                 b = self.model.dof_to_basis.get(d)
-                if b is not None and b.is_phonon:
-                    out.add(d)
+                # sites whose basis defines compound symbols by convention rather than as matrix products:
+                # truncated oscillators (x x := x^2 exactly) and multi-electron sites (a_i a+_j := |j><i|)
+                if b is not None and (b.is_phonon or b.multi_dof):
+                    out.add(self.model.dof_to_siteidx[d])
         return out
 
     def put(self, h, obj, ref, inv, what, scale=0.0):
